@@ -164,6 +164,8 @@ func readAll(ctx context.Context, dag ipldformat.DAGService, root cid.Cid) ([]by
 
 const vtype = datatransfer.TypeIdentifier("gsxVoucher")
 
+var appDelay = 40 * time.Millisecond
+
 // scripted validator of the responder
 type validator struct {
 	mu     sync.Mutex
@@ -391,7 +393,10 @@ func runScenario(t *testing.T, s Scenario) Obs {
 		}
 		return m, nil
 	}
-	app := func(f func()) { wg.Add(1); go func() { defer wg.Done(); f() }() }
+	// the application reacts a little later than the notification: the library announces an event before the
+	// handler that produced it has finished its transport calls (e.g. the pause that follows DataLimitExceeded),
+	// and a re-validation arriving inside that window is overtaken by the handler's own pause (DESIGN.md, O1)
+	app := func(f func()) { wg.Add(1); go func() { defer wg.Done(); time.Sleep(appDelay); f() }() }
 	progress := func(evt datatransfer.Event) bool {
 		return evt.Code == datatransfer.DataReceivedProgress || evt.Code == datatransfer.DataQueuedProgress
 	}
@@ -525,7 +530,7 @@ func runScenario(t *testing.T, s Scenario) Obs {
 		defer cc()
 		return m.ChannelState(c2, chid)
 	}
-	deadline := time.Now().Add(25 * time.Second)
+	deadline := time.Now().Add(12 * time.Second)
 	for time.Now().Before(deadline) {
 		a, e1 := state(1)
 		b, e2 := state(2)
